@@ -10,12 +10,13 @@ from vf.runner import Sub
 ID = "C18"
 RULE = ("Cases are constraint expression trees. Exhaustive part: every tree over NOT + the 7 binary logical "
         "operators of depth <= 2 on names {A,B,C} and again on the case twins {A,a,B} (2 x 33 399 trees; quick runs all depth<=1 trees and a seeded "
-        "slice of depth-2 trees); every NOT/AND/OR tree of depth <= 3 on {A,B} (182 712 trees; quick: a seeded 1/24 slice). Random part: trees to depth 5 on <= 5 names, the seven documented simple forms "
+        "slice of depth-2 trees); every NOT/AND/OR tree of depth <= 3 on {A,B} (182 712 trees; quick: a seeded 1/24 slice); all 16 384 trees nesting XOR/EQUIVALENCE in each other under optional negations (quick: 1/8) plus a slice of all NOT/XOR/EQUIVALENCE trees of depth <= 3. Random part: trees to depth 5 on <= 5 names, the seven documented simple forms "
         "for all ordered name pairs (also with odd names), and arithmetic/aggregate trees for the kind predicates. "
         "Non-trivial: tree with an XOR/EQUIVALENCE root, a NOT over a binary operator, or any arithmetic/aggregate "
         "tree; distinct = distinct canonical JSON.")
 ASSUMPTIONS = [
     "logical equivalence is decided by complete truth tables over the atoms of both sides (vf/logic.py)",
+    "which complex constraints are pseudo- and which strict-complex is the library's procedure to decide; the check only refutes 'strict' when each of 16 textbook clause transformations yields simple constraints only (and 'pseudo' through the soundness of the split)",
     "names inside aggregate calls (sum(attr, F)) are not demanded from get_features (only 'reported names are "
     "written in the tree' is checked there); for every other tree the reported set must equal the written names",
 ]
@@ -53,6 +54,27 @@ def _trees_over(depth, names, binops):
             nxt.extend([op, a, b] for a in level for b in level)
         level = nxt
     return level
+
+
+def enum_notxoreq(tier, seed):
+    """XOR / EQUIVALENCE nested in each other under optional negations: every tree [!] X([!] X(l, l), [!] X(l, l)) with
+    X in {XOR, EQUIVALENCE} and l a possibly negated name of {A,B} (16 384 trees, three such operators each - the
+    expansion of these operators inside each other and below NOT), plus a slice of the complete family of
+    NOT/XOR/EQUIVALENCE trees of depth <= 3 over {A,B} (182 712 trees, up to seven such operators: the library's
+    clause conversion is exponential there, hence 1/16 in thorough and 1/384 in quick)."""
+    ops = ("XOR", "EQUIVALENCE")
+    lits = [["T", "A"], ["NOT", ["T", "A"]], ["T", "B"], ["NOT", ["T", "B"]]]
+    inner = [[op, a, b] for op in ops for a in lits for b in lits]
+    inner = inner + [["NOT", x] for x in inner]
+    nested = [[op, a, b] for op in ops for a in inner for b in inner]
+    nested = nested + [["NOT", x] for x in nested]
+    full = _trees_over(3, ["A", "B"], list(ops))
+    s_ = int(seed)
+    if tier == "thorough":
+        trees = nested + full[s_ % 16::16]
+    else:
+        trees = nested[s_ % 8::8] + full[(s_ + 7) % 384::384]
+    return [{"ast": e} for e in trees]
 
 
 def enum_andornot(tier, seed):
@@ -216,6 +238,11 @@ def check(case):
     if com and None not in (pse, stri) and (pse == stri):
         out.append(("C18.complex-not-exactly-one-of-pseudo-strict", f"pseudo={pse} strict={stri}"))
 
+    # "strict-complex = cannot be transformed to a set of simple constraints": refuted when every textbook
+    # transformation into clauses yields simple constraints only (one-way backstop, see logic.unanimously_pseudo)
+    if logical and stri is True and com and logic.unanimously_pseudo(e) is True:
+        out.append(("C18.strict-complex-but-every-standard-transformation-is-simple", logic.canon(e)[:300]))
+
     # splitting
     if splits is not None:
         try:
@@ -294,12 +321,13 @@ SUBS = [
         exhaustive={"quick": False, "thorough": True}),
     Sub("exhaustive-and-or-not-depth3", check, enum=enum_andornot, nontrivial=nontrivial, classes=classes,
         exhaustive={"quick": False, "thorough": True}),
+    Sub("nested-xor-equivalence", check, enum=enum_notxoreq, nontrivial=nontrivial, classes=classes, exhaustive=False),
     Sub("random", check, gen=lambda tier: random_cases(), nontrivial=nontrivial, classes=classes,
         n={"quick": 1000, "thorough": 8000}, essential=["documented-form", "non-logical"]),
 ]
 
 MANIFEST = {
-    "technique": "exhaustive enumeration of all constraint trees of depth<=2 over 3 names and of all NOT/AND/OR trees of depth<=3 over 2 names + Hypothesis random deeper/arithmetic trees; oracle = complete truth tables and a reference kind classifier",
+    "technique": "exhaustive enumeration of all constraint trees of depth<=2 over 3 names and of all NOT/AND/OR trees of depth<=3 over 2 names, the family of nested XOR/EQUIVALENCE trees + Hypothesis random deeper/arithmetic trees; oracle = complete truth tables and a reference kind classifier",
     "level_text": "Every logical tree of depth <= 2 over {A,B,C} is decided exhaustively (thorough; quick takes all depth<=1 trees and a seeded 1/8 slice of depth 2), every NOT/AND/OR tree of depth <= 3 over {A,B} likewise (thorough; quick a 1/24 slice), deeper and arithmetic/aggregate trees by random search. Equivalences are exact (truth tables). Absence of violations is established only inside the enumerated domain.",
     "level_note": "Trusted: vf/logic.py truth-table semantics (REQUIRES=IMPLIES, EXCLUDES=not both), the reference kind classifier, Hypothesis. Names inside aggregate calls are not demanded from get_features.",
 }
